@@ -73,8 +73,11 @@ for d in dirs:
                     for ln in p.stdout.split('\n')
                     if ln.startswith('violation ')]
             results[(name, cid)] = (p.returncode, sigs)
-            print('{:28s} {} exit={} {:5.0f}s {}'.format(
-                name, cid, p.returncode, time.time() - t0, sigs[:4]))
+            import re
+            m = re.search(r'violations: \d+ new / (\d+) runs', p.stdout)
+            print('{:28s} {} exit={} {:5.0f}s {} hits={}'.format(
+                name, cid, p.returncode, time.time() - t0, sigs[:4],
+                m.group(1) if m else '?'), flush=True)
     finally:
         subprocess.run(['git', '-C', REPO, 'checkout', '--', '.'])
         for f in glob.glob(OUTDIR + '/replay/*.json'):
